@@ -41,6 +41,10 @@ class M:
                 if n == 'len' and e.ret[0] == 'load':
                     self.map[e.ret] = LEN
 
+    def always(self, ev):
+        """the effect happens on every path that returns normally (requirement side: not merely 'such an effect exists')"""
+        return arena.on_every_return_path(self.I, ev)
+
     def canon(self, t, facts=()):
         t = subst(t, self.map)
         t = self._strip(t)
@@ -228,16 +232,16 @@ def run(ctx, config='rel-all'):
     if m:
         gate('insert', m, [('lt', LEN, i)], 'index > len')
         cp = m.events('copy')
-        check('insert', 'one memmove', len(cp) == 1 and cp[0].callee == 'copy', str([c.callee for c in cp]), m.body.get('span'))
+        check('insert', 'one memmove', len(cp) == 1 and m.always(cp[0]) and cp[0].callee == 'copy', str([c.callee for c in cp]), m.body.get('span'))
         if cp:
             f = cp[0].state.facts
             check('insert', 'shift source is BASE + index', m.eq(cp[0].args[0], slot(i), f), show(m.canon(cp[0].args[0], f)[0])[:80], cp[0].span)
             check('insert', 'shift destination is BASE + index + 1', m.eq(cp[0].args[1], slot(i, 1), f), show(m.canon(cp[0].args[1], f)[0])[:80], cp[0].span)
             check('insert', 'shift count is len - index', m.eq(cp[0].args[2], app('sub', LEN, i), f), show(m.canon(cp[0].args[2], f)[0])[:80], cp[0].span)
         w = m.events('call', 'ptr::write')
-        check('insert', 'element written at BASE + index', len(w) == 1 and m.eq(w[0].args[0], slot(i), w[0].state.facts) and w[0].args[1] == x, '', m.body.get('span'))
+        check('insert', 'element written at BASE + index', len(w) == 1 and m.always(w[0]) and m.eq(w[0].args[0], slot(i), w[0].state.facts) and w[0].args[1] == x, '', m.body.get('span'))
         sl = m.events('call', '::set_len')
-        check('insert', 'len := len + 1', len(sl) == 1 and m.eq(sl[0].args[1], app('add', LEN, C(1)), sl[0].state.facts), '', m.body.get('span'))
+        check('insert', 'len := len + 1', len(sl) == 1 and m.always(sl[0]) and m.eq(sl[0].args[1], app('add', LEN, C(1)), sl[0].state.facts), '', m.body.get('span'))
         if cp and w and sl:
             ev = m.r.events
             check('insert', 'order: shift, write, set_len', ev.index(cp[0]) < ev.index(w[0]) < ev.index(sl[0]))
@@ -250,17 +254,17 @@ def run(ctx, config='rel-all'):
         rd = m.events('call', 'ptr::read')
         cp = m.events('copy')
         sl = m.events('call', '::set_len')
-        check('remove', 'reads BASE + index', len(rd) == 1 and m.eq(rd[0].args[0], slot(i), rd[0].state.facts))
+        check('remove', 'reads BASE + index', len(rd) == 1 and m.always(rd[0]) and m.eq(rd[0].args[0], slot(i), rd[0].state.facts))
         check('remove', 'returns the value read', len(rd) == 1 and m.r.ret == rd[0].ret)
         if cp:
             f = cp[0].state.facts
-            check('remove', 'one memmove', len(cp) == 1 and cp[0].callee == 'copy')
+            check('remove', 'one memmove', len(cp) == 1 and m.always(cp[0]) and cp[0].callee == 'copy')
             check('remove', 'shift source is BASE + index + 1', m.eq(cp[0].args[0], slot(i, 1), f), show(m.canon(cp[0].args[0], f)[0])[:80])
             check('remove', 'shift destination is BASE + index', m.eq(cp[0].args[1], slot(i), f))
             check('remove', 'shift count is len - index - 1', m.eq(cp[0].args[2], app('sub', app('sub', LEN, i), C(1)), f), show(m.canon(cp[0].args[2], f)[0])[:80])
         else:
             check('remove', 'one memmove', False)
-        check('remove', 'len := len - 1', len(sl) == 1 and m.eq(sl[0].args[1], app('sub', LEN, C(1)), sl[0].state.facts))
+        check('remove', 'len := len - 1', len(sl) == 1 and m.always(sl[0]) and m.eq(sl[0].args[1], app('sub', LEN, C(1)), sl[0].state.facts))
         if rd and cp and sl:
             ev = m.r.events
             check('remove', 'order: read, shift, set_len', ev.index(rd[0]) < ev.index(cp[0]) < ev.index(sl[0]))
@@ -269,8 +273,8 @@ def run(ctx, config='rel-all'):
     if m:
         w = m.events('call', 'ptr::write')
         st = [e for e in m.own if e.kind == 'store' and e.lv == ('fld', ('deref', SELF), 'collections::vec::Vec.len')]
-        check('push', 'element written at BASE + len', len(w) == 1 and m.eq(w[0].args[0], slot(LEN), w[0].state.facts) and w[0].args[1] == ('param', 2))
-        check('push', 'len := len + 1', len(st) == 1 and m.eq(st[0].val, app('add', LEN, C(1)), st[0].state.facts))
+        check('push', 'element written at BASE + len', len(w) == 1 and m.always(w[0]) and m.eq(w[0].args[0], slot(LEN), w[0].state.facts) and w[0].args[1] == ('param', 2))
+        check('push', 'len := len + 1', len(st) == 1 and m.always(st[0]) and m.eq(st[0].val, app('add', LEN, C(1)), st[0].state.facts))
         rs = m.events('call', '::reserve')
         check('push', 'reserve(1) exactly under len == cap', len(rs) == 1 and rs[0].args[1] == C(1) and any(f[0] == 'eq' and 'RawVec.cap' in repr(f) for f in rs[0].state.facts))
         if w and st:
@@ -296,9 +300,9 @@ def run(ctx, config='rel-all'):
         check('split_off', 'other = with_capacity(len - at)', len(wc) == 1 and m.eq(wc[0].args[0], app('sub', LEN, at), wc[0].state.facts))
         selfsl = [e for e in sl if e.args[0] == SELF]
         othsl = [e for e in sl if e.args[0] != SELF]
-        check('split_off', 'self.set_len(at)', len(selfsl) == 1 and selfsl[0].args[1] == at)
-        check('split_off', 'other.set_len(len - at)', len(othsl) == 1 and m.eq(othsl[0].args[1], app('sub', LEN, at), othsl[0].state.facts))
-        check('split_off', 'memcpy BASE + at -> other, len - at elements', len(cp) == 1 and cp[0].callee == 'copy_nonoverlapping' and m.eq(cp[0].args[0], slot(at), cp[0].state.facts) and m.eq(cp[0].args[2], app('sub', LEN, at), cp[0].state.facts))
+        check('split_off', 'self.set_len(at)', len(selfsl) == 1 and m.always(selfsl[0]) and selfsl[0].args[1] == at)
+        check('split_off', 'other.set_len(len - at)', len(othsl) == 1 and m.always(othsl[0]) and m.eq(othsl[0].args[1], app('sub', LEN, at), othsl[0].state.facts))
+        check('split_off', 'memcpy BASE + at -> other, len - at elements', len(cp) == 1 and m.always(cp[0]) and cp[0].callee == 'copy_nonoverlapping' and m.eq(cp[0].args[0], slot(at), cp[0].state.facts) and m.eq(cp[0].args[2], app('sub', LEN, at), cp[0].state.facts))
     # ---- append_elements (a private helper of append; when it was inlined its clauses are evaluated on append itself, below)
     has_append_elements = vec_method(db, 'append_elements') is not None
     m = need('append_elements') if has_append_elements else None
@@ -308,8 +312,8 @@ def run(ctx, config='rel-all'):
         cp = m.events('copy')
         st = [e for e in m.own if e.kind == 'store' and e.lv == ('fld', ('deref', SELF), 'collections::vec::Vec.len')]
         check('append_elements', 'reserve(other.len())', len(rs) == 1 and rs[0].args[1] == cnt)
-        check('append_elements', 'memcpy other -> BASE + len, other.len() elements', len(cp) == 1 and cp[0].callee == 'copy_nonoverlapping' and cp[0].args[0] == ('param', 2) and m.eq(cp[0].args[1], slot(LEN), cp[0].state.facts) and cp[0].args[2] == cnt)
-        check('append_elements', 'len := len + other.len()', len(st) == 1 and m.eq(st[0].val, app('add', LEN, cnt), st[0].state.facts))
+        check('append_elements', 'memcpy other -> BASE + len, other.len() elements', len(cp) == 1 and m.always(cp[0]) and cp[0].callee == 'copy_nonoverlapping' and cp[0].args[0] == ('param', 2) and m.eq(cp[0].args[1], slot(LEN), cp[0].state.facts) and cp[0].args[2] == cnt)
+        check('append_elements', 'len := len + other.len()', len(st) == 1 and m.always(st[0]) and m.eq(st[0].val, app('add', LEN, cnt), st[0].state.facts))
         if rs and cp and st:
             ev = m.r.events
             check('append_elements', 'order: reserve, copy, len', ev.index(rs[0]) < ev.index(cp[0]) < ev.index(st[0]))
@@ -319,15 +323,15 @@ def run(ctx, config='rel-all'):
         cnt = app('len', ('param', 2))
         cp = m.events('copy')
         sl = m.events('call', '::set_len')
-        check('extend_from_slice_copy_unchecked', 'memcpy other -> BASE + len, other.len() elements', len(cp) == 1 and cp[0].callee == 'copy_nonoverlapping' and m.eq(cp[0].args[1], slot(LEN), cp[0].state.facts) and cp[0].args[2] == cnt)
-        check('extend_from_slice_copy_unchecked', 'len := len + other.len()', len(sl) == 1 and m.eq(sl[0].args[1], app('add', LEN, cnt), sl[0].state.facts))
+        check('extend_from_slice_copy_unchecked', 'memcpy other -> BASE + len, other.len() elements', len(cp) == 1 and m.always(cp[0]) and cp[0].callee == 'copy_nonoverlapping' and m.eq(cp[0].args[1], slot(LEN), cp[0].state.facts) and cp[0].args[2] == cnt)
+        check('extend_from_slice_copy_unchecked', 'len := len + other.len()', len(sl) == 1 and m.always(sl[0]) and m.eq(sl[0].args[1], app('add', LEN, cnt), sl[0].state.facts))
     # ---- swap_remove
     m = need('swap_remove')
     if m:
         st = [e for e in m.own if e.kind == 'store' and e.lv == ('fld', ('deref', SELF), 'collections::vec::Vec.len')]
         rd = m.events('call', 'ptr::read')
         idx = [e for e in m.own if e.kind == 'call' and e.callee and e.callee.endswith('index_mut')]
-        check('swap_remove', 'len := len - 1', len(st) == 1 and m.canon(st[0].val)[0] in (('app', 'wsub', LEN, C(1)), app('sub', LEN, C(1))))
+        check('swap_remove', 'len := len - 1', len(st) == 1 and m.always(st[0]) and m.canon(st[0].val)[0] in (('app', 'wsub', LEN, C(1)), app('sub', LEN, C(1))))
         okb = len(idx) == 1 and idx[0].args[0] == SELF and idx[0].args[1] == ('param', 2) and bool(st) and m.r.events.index(idx[0]) < m.r.events.index(st[0])
         check('swap_remove', 'bounds-checked access self[index] happens before the length is lowered', okb)
         okr = len(rd) == 1 and (('get_unchecked' in repr(rd[0].args[0]) and m.canon(rd[0].args[0][2][1] if rd[0].args[0][0] == 'call' else C(0))[0] in (('app', 'wsub', LEN, C(1)), app('sub', LEN, C(1))))
@@ -351,7 +355,7 @@ def run(ctx, config='rel-all'):
         check('drain', 'panics exactly when end < start', start is not None and end is not None and ('lt', end, start) in labels, '', m.body.get('span'))
         lenload = ('load', ('fld', ('deref', SELF), 'collections::vec::Vec.len'), 0)
         check('drain', 'panics exactly when len < end', end is not None and ('lt', lenload, end) in labels)
-        check('drain', 'len := start (leak amplification)', len(sl) == 1)
+        check('drain', 'len := start (leak amplification) on every path that builds the Drain', len(sl) == 1 and arena.on_every_return_path(m.I, sl[0]))
         tl = field_of(r, 'tail_len') if r is not None and r[0] == 'agg' else None
         oktl = tl is not None and end is not None and tl in (('app', 'wsub', lenload, end), app('sub', lenload, end))
         if not oktl and tl is not None and end is not None and tl[0] == 'app' and tl[1] in ('sub', 'wsub') and len(tl) == 4 and tl[3] == end:
@@ -493,7 +497,7 @@ def run(ctx, config='rel-all'):
     m = need('clear')
     if m:
         tr = m.events('call', '::truncate')
-        check('clear', 'truncate(0)', len(tr) == 1 and tr[0].args[0] == SELF and tr[0].args[1] == C(0))
+        check('clear', 'truncate(0)', len(tr) == 1 and m.always(tr[0]) and tr[0].args[0] == SELF and tr[0].args[1] == C(0))
     m = need('append')
     if m and not has_append_elements:
         oth = ('param', 2)
@@ -505,10 +509,10 @@ def run(ctx, config='rel-all'):
         check('append', 'reserve(other.len())', len(rs) == 1 and rs[0].args[0] == SELF and rs[0].args[1] == cnt)
         srcok = len(cp) == 1 and cp[0].args[0][0] == 'load' and 'RawVec.ptr' in repr(cp[0].args[0]) and repr(oth) in repr(cp[0].args[0])
         check('append', 'memcpy other.buf -> BASE + len, other.len() elements', srcok and cp[0].callee == 'copy_nonoverlapping' and m.eq(cp[0].args[1], slot(LEN), cp[0].state.facts) and cp[0].args[2] == cnt)
-        check('append', 'len := len + other.len()', len(st) == 1 and m.eq(st[0].val, app('add', LEN, cnt), st[0].state.facts))
+        check('append', 'len := len + other.len()', len(st) == 1 and m.always(st[0]) and m.eq(st[0].val, app('add', LEN, cnt), st[0].state.facts))
         ev = m.r.events
         check('append', 'order: reserve, copy, len', bool(rs and cp and st) and ev.index(rs[0]) < ev.index(cp[0]) < ev.index(st[0]))
-        check('append', 'other.set_len(0) after the copy (the elements moved)', len(sl) == 1 and sl[0].args[0] == oth and sl[0].args[1] == C(0) and bool(cp) and ev.index(cp[0]) < ev.index(sl[0]))
+        check('append', 'other.set_len(0) after the copy (the elements moved)', len(sl) == 1 and m.always(sl[0]) and sl[0].args[0] == oth and sl[0].args[1] == C(0) and bool(cp) and ev.index(cp[0]) < ev.index(sl[0]))
     elif m:
         ae = m.events('call', '::append_elements')
         sl = m.events('call', '::set_len')
@@ -516,7 +520,7 @@ def run(ctx, config='rel-all'):
         oks = len(ae) == 1 and ae[0].args[0] == SELF and ae[0].args[1][0] == 'agg' and field_of(ae[0].args[1], 'len') == ('load', ('fld', ('deref', oth), 'collections::vec::Vec.len'), 0) \
             and field_of(ae[0].args[1], 'ptr')[0] == 'load' and 'RawVec.ptr' in repr(field_of(ae[0].args[1], 'ptr')) and repr(oth) in repr(field_of(ae[0].args[1], 'ptr'))
         check('append', 'append_elements(other[..]) copies exactly other.len elements from other', oks)
-        check('append', 'other.set_len(0) after the copy (the elements moved)', len(sl) == 1 and sl[0].args[0] == oth and sl[0].args[1] == C(0) and bool(ae) and m.r.events.index(ae[0]) < m.r.events.index(sl[0]))
+        check('append', 'other.set_len(0) after the copy (the elements moved)', len(sl) == 1 and m.always(sl[0]) and sl[0].args[0] == oth and sl[0].args[1] == C(0) and bool(ae) and m.r.events.index(ae[0]) < m.r.events.index(sl[0]))
     m = need('extend_from_slice_copy')
     if m:
         rs = m.events('call', '::reserve')
